@@ -42,7 +42,8 @@ def check_maybe_restore(ck, cr, rule):
         elif c.startswith(A + "new_") and cr.fns.get(c) is not None and cr.fns[c].d.get("impl_for") == "allocator::Allocator":
             add(b, 10 ** 6, "creator")
         elif c.startswith(A) and cr.fns.get(c) is not None and "&mut allocator::Allocator" in cr.fns[c].locals[1]["ty"]:
-            add(b, 10 ** 6, "other")
+            if not ac.spliceable(cr.fns[c]):      # a private accounting helper's effects are already placed at this call
+                add(b, 10 ** 6, "other")
 
     def ret_kind(rv, b, fn):
         e = strip(fn.expr_rvalue(rv))
